@@ -126,6 +126,36 @@ def quoted_trees(tier):
     return out if tier == 'thorough' else out[::4]
 
 
+def cql_only_trees(rng, n):
+    """CQL type strings outside the descriptor grammar of `wf`: frozen directly inside frozen (the driver prints
+    frozen<frozen<tuple<..>>> for FrozenType(TupleType(..))), frozen around tuples / UDTs / simple types, at any depth"""
+    F = lambda x: ('frozen', x)
+    U = lambda n: ('udt', 'ks1', n, ['a'], [S('int')])
+    L = ('list', S('int'))
+    out = [F(F(L)), F(F(F(L))), F(S('int')), F(F(S('int'))), F(('tuple', [S('int')])), F(U('addr')), F(U('A b')), F(F(U('A b'))),
+           ('map', F(F(L)), F(('tuple', [F(L), F(F(S('text')))]))), ('list', F(F(('set', F(F(S('uuid'))))))),
+           ('tuple', [F(L), F(F(L)), F(U('x<y'))]), F(('vector', F(F(L)), '3')), ('map', F(U('addr')), F(F(('tuple', []))))]
+
+    def rnd(d):
+        if d == 0 or rng.random() < 0.2:
+            return S(rng.choice(['int', 'text', 'uuid', 'double']))
+        k = rng.choice(['frozen', 'frozen', 'frozen', 'list', 'set', 'map', 'tuple', 'udt', 'vector'])
+        if k == 'frozen':
+            return F(rnd(d - 1))
+        if k in ('list', 'set'):
+            return (k, rnd(d - 1))
+        if k == 'map':
+            return ('map', rnd(d - 1), rnd(d - 1))
+        if k == 'tuple':
+            return ('tuple', [rnd(d - 1) for _ in range(rng.randint(0, 3))])
+        if k == 'udt':
+            return U(rng.choice(['addr', 'A b', 'C, d', 'point2d']))
+        return ('vector', rnd(d - 1), rng.choice(['2', '3']))
+    for _ in range(n):
+        out.append(rnd(rng.choice([2, 3, 4])))
+    return out
+
+
 def vary(rng, t):
     """a tree that differs from t in one detail (a leaf type, a vector dimension, a UDT name or its field names)"""
     k = t[0]
@@ -277,13 +307,15 @@ def classify_name_mismatch(got, want):
     return 'other'
 
 
-def oracle_tree(ctx, C, fresh, t, reset=True):
+def oracle_tree(ctx, C, fresh, t, reset=True, cass=True):
     """the statement, on the implementation.  Returns list of (key, what, expected, actual)."""
     bad = []
     desc = T.spec_cass(t)
     want = T.spec_cql(t)
     if reset:
         fresh.reset()
+    if not cass:
+        return bad + oracle_cql(C, t)
     try:
         c = C.lookup_casstype(desc)
     except Exception as e:
@@ -299,7 +331,20 @@ def oracle_tree(ctx, C, fresh, t, reset=True):
                         'CQL name of lookup_casstype(%r) is %r, Cassandra\'s name is %r' % (desc, got, want), want, repr(got)[:300]))
         if not T.codec_matches(C, c, t):
             bad.append(('cass_parse.codec', 'class parsed from %r does not have the codec structure of the type (%r)' % (desc, T.obs(C, c)), repr(t), repr(T.obs(C, c))[:300]))
-    # CQL side
+        elif reset and isinstance(c, type):
+            # same value codec, behaviourally: like the directly built class of the type at every protocol version
+            for op, pv, got, ref in T.codec_behaviour(C, c, t)[:1]:
+                bad.append(('cass_parse.codec_behaviour.%s.%s' % (op, 'v1v2' if pv < 3 else 'v3plus'),
+                            'class parsed from %r does not %s like the codec of the type under protocol v%d: %r, the type\'s own class gives %r'
+                            % (desc, op, pv, got[:2], ref[:2]), repr(ref)[:300], repr(got)[:300]))
+    bad += oracle_cql(C, t)
+    if reset:
+        fresh.reset()
+    return bad
+
+
+def oracle_cql(C, t):
+    bad = []
     names_ok = all(not any(ch in n for ch in '"\'\\\n') for n in udt_names(t))
     if names_ok:
         for sep in (', ', ','):
@@ -318,8 +363,6 @@ def oracle_tree(ctx, C, fresh, t, reset=True):
             got_s = e
         if not isinstance(got_s, str) or nosp(got_s) != nosp(want_s):
             bad.append(('strip_frozen', 'strip_frozen(%r) = %r, expected %r' % (s, got_s, want_s), want_s, repr(got_s)[:300]))
-    if reset:
-        fresh.reset()
     return bad
 
 
@@ -485,6 +528,26 @@ def run(ctx):
             cases.append('chk_tree %s %s %s %s %s' % (T.gty(t), T.gs(desc), T.gs(T.spec_cql(t)), T.gs(T.spec_cql(t, fz=False)), g))
             meta.append(('history', h[:i + 1], summary))
     fresh.reset()
+    # CQL-only trees: nested frozen wrappers (outside the descriptor grammar): clauses 2 and 3 on the implementation + model
+    conly = cql_only_trees(ctx.rng, 60 if ctx.tier == 'quick' else 1500)
+    for t in conly:
+        if repr(t) in seen:
+            continue
+        seen.add(repr(t))
+        ctx.count('stream', 'cql_only_tree')
+        ctx.case(['cql-tree', repr(t)], nontrivial=True)
+        for (k, what, exp, act) in oracle_tree(ctx, C, fresh, t, cass=False):
+            ctx.violation(k, what, case={'tree': t, 'cql_only': True}, expected=exp, actual=act,
+                          theorem='C28_cql_roundtrip' if k == 'cql_roundtrip' else 'C28_strip_frozen_string')
+    # protocol version handed on by the wrapper classes (model: wrapper_ser_pv / wrapper_des_pv)
+    fresh.reset()
+    for (wname, pv, ser, des, size_del) in T.wrapper_routes(C):
+        ctx.count('stream', 'wrapper_route')
+        cases.append('(N.eqb (wrapper_ser_pv %s %d%%N) %d%%N && N.eqb (wrapper_des_pv %s %d%%N) %d%%N && Bool.eqb (wrapper_size_delegates %s) %s)'
+                     % (T.gs(wname), pv, ser if isinstance(ser, int) else 999, T.gs(wname), pv, des if isinstance(des, int) else 999,
+                        T.gs(wname), 'true' if size_del else 'false'))
+        meta.append(('wrapper', [wname, pv], {'serialize_passes': ser, 'deserialize_passes': des, 'serial_size_delegated': size_del}))
+    fresh.reset()
     # CQL strings of the trees (plain words and double-quoted names) + malformed ones
     goods = []
     for t in (trees[:60] + trees[-230:] if ctx.tier == 'quick' else trees[:4000] + trees[-3200:]):
@@ -494,6 +557,7 @@ def run(ctx):
                 goods.append(T.spec_cql(t, sep=','))
         elif all(not any(ch in n for ch in '"\'\\\n') for n in udt_names(t)):
             goods.append(cql_form(t, sep=rng_sep(len(goods))))
+    goods += [cql_form(t, sep=rng_sep(i)) for i, t in enumerate(conly[:(80 if ctx.tier == 'quick' else 1500)])]
     cqls = list(dict.fromkeys(goods + malformed_cql(ctx.rng, goods or ['int'], 120 if ctx.tier == 'quick' else 1500)))
     for s in cqls:
         g, g2, summary = cql_case(C, s)
@@ -557,7 +621,7 @@ def replay(ctx, rp):
     case = rp.get('case') or {}
     if 'tree' in case:
         t = tuplify(case['tree'])
-        bad = oracle_tree(ctx, C, fresh, t)
+        bad = oracle_tree(ctx, C, fresh, t, cass=not case.get('cql_only'))
         print('replay tree=%r\n  descriptor=%s' % (t, T.spec_cass(t)))
         for k, what, exp, act in bad:
             print('  %s: %s' % (k, what))
